@@ -29,6 +29,7 @@ const (
 	rIntoScalar  = "into-scalar"
 	rIntoNil     = "into-nil"
 	rNilEmbedded = "nil-embedded-pointer"
+	rWrongCase   = "wrong-case-of-name-or-tag" // neither a Go field name nor a JSON tag, but equal to one up to case
 )
 
 // canonInt parses a canonical decimal ("0", "12", "-3"); other spellings Atoi accepts ("+1",
@@ -323,7 +324,7 @@ func index(cur any, st Step) (any, string, string) {
 		case "num":
 			return c.Num, reach, pfx + "struct.tag"
 		}
-		return nil, rNoField, pfx + "struct"
+		return nil, noField(k, []string{"Deep", "Num", "num"}), pfx + "struct"
 	case PLeaf:
 		if k == "PDeep" {
 			return c.PDeep, reach, pfx + "struct.name"
@@ -405,10 +406,32 @@ func nodeField(n Node, k string) (any, string, string) {
 		// JSON tag of a field promoted from an embedded struct: encoding/json would flatten it,
 		// Go selectors know only the name. Not settled by the statement.
 		return nil, unspec, ".promoted-tag"
+	case "Short":
+		return n.Short, reach, ".name"
+	case "id":
+		return n.Short, reach, ".tag"
+	case "Long":
+		return n.Long, reach, ".name"
+	case "ID":
+		return n.Long, reach, ".tag"
 	case "hidden", "secret":
 		return nil, rUnexported, ""
 	}
-	return nil, rNoField, ""
+	return nil, noField(k, nodeNames), ""
+}
+
+var nodeNames = []string{"Name", "Title", "title", "Count", "count", "Any", "any", "Kids", "Next", "next", "Arr", "Tags", "tags", "M", "Small", "small", "Bytes", "Leaf", "Deep", "Num", "PLeaf", "PDeep", "Short", "Long", "id", "ID"}
+var rootNames = []string{"Plain", "Tagged", "tagged", "List", "Sub", "sub", "Any", "any", "Short", "Long", "id", "ID"}
+
+// noField tells a name that merely differs in case from a field name or tag (Go selectors and
+// map-like tag access are case-sensitive: it is not that field) from an unrelated name.
+func noField(k string, names []string) string {
+	for _, n := range names {
+		if n != k && strings.EqualFold(n, k) {
+			return rWrongCase
+		}
+	}
+	return rNoField
 }
 
 func rootField(r rootT, k string) (any, string, string) {
@@ -429,10 +452,18 @@ func rootField(r rootT, k string) (any, string, string) {
 		return r.Any, reach, ".name"
 	case "any":
 		return r.Any, reach, ".tag"
+	case "Short":
+		return r.Short, reach, ".name"
+	case "id":
+		return r.Short, reach, ".tag"
+	case "Long":
+		return r.Long, reach, ".name"
+	case "ID":
+		return r.Long, reach, ".tag"
 	case "hidden":
 		return nil, rUnexported, ""
 	}
-	return nil, rNoField, ""
+	return nil, noField(k, rootNames), ""
 }
 
 // walk applies all steps; it returns the element, the outcome (reach / unspec / reason of
@@ -520,7 +551,7 @@ func validSteps(cur any) []string {
 	case [3]int:
 		return idx(3)
 	case Node:
-		o := []string{"Name", "Title", "title", "Count", "count", "Any", "any", "Kids", "Next", "next", "Arr", "Tags", "tags", "M", "Small", "small", "Bytes", "Leaf", "Deep", "Num", "PLeaf"}
+		o := []string{"Name", "Title", "title", "Count", "count", "Any", "any", "Kids", "Next", "next", "Arr", "Tags", "tags", "M", "Small", "small", "Bytes", "Short", "id", "Long", "ID", "Leaf", "Deep", "Num", "PLeaf"}
 		if c.PLeaf != nil {
 			o = append(o, "PDeep")
 		}
@@ -597,12 +628,15 @@ func invalidSteps(cur any, avoid func(id string) bool) []string {
 	case map[int]string:
 		return []string{"7", "x", "-1"}
 	case Node:
-		o := []string{"hidden", "secret", "Nope", "name", "0"}
+		// wrong-case spellings of tags ("TITLE", "tITLE", "Id") and of Go field names ("name", "NAME")
+		o := []string{"hidden", "secret", "Nope", "name", "0", "TITLE", "tITLE", "COUNT", "ANY", "Id", "iD", "NAME", "tAGS", "SMALL"}
 		if d.(Node).PLeaf == nil {
 			o = append(o, "PDeep")
 		}
 		return o
-	case Leaf, PLeaf, subT:
+	case Leaf:
+		return []string{"Nope", "deep", "0", "NUM", "nUm"}
+	case PLeaf, subT:
 		return []string{"Nope", "deep", "0"}
 	}
 	return []string{"x", "0", "Name"} // scalar or nil
